@@ -21,7 +21,7 @@ def bfs(out, label, args, threads=16, groups_per_chunk=12, stall_s=30):
     summary = json.load(open(os.path.join(d, label + ".w00.summary.json")))
     chunks = vlib.split_chunks(files, d, label + "c", groups_per_chunk)
     checked, classes = vlib.tlc_validate("Trace_Vfs", chunks, extra_env=dict(PENV=pe))
-    out.absorb("Trace_Vfs", checked, classes, label=label)
+    out.absorb("Trace_Vfs", checked, classes, label=label, grouped=True)
     out.cov.setdefault("impl_bfs", []).append(dict(label=label, **summary))
     if chunks:
         r = vlib.read_line(chunks[len(chunks) // 2], 1)
